@@ -424,6 +424,11 @@ func (w *SrvWorld) checkE2E() {
 					Detail: fmt.Sprintf("payload written to %s at %d ns never reached the peer: the allocation made after Close was deleted by the retransmitted Refresh(0) of that Close (WriteTo err=%v)", wr.Peer, wr.T, wr.Err)})
 				break
 			}
+			if !got && w.deafListenerBefore(rc, wr.T) {
+				w.K.Violate(&Violation{Property: "C14", Class: "probe-lost", Key: kv("cause", "listener-deaf-while-dialling-silent-peer", "dir", "c2p"),
+					Detail: fmt.Sprintf("payload written to %s at %d ns (%.0f s after Allocate) never reached the peer: before that the server dialled a host that never answers, inside the read loop this client's requests go through (WriteTo done=%v err=%v)", wr.Peer, wr.T, float64(wr.T-rc.allocAt)/1e9, wr.Done, wr.Err)})
+				break
+			}
 			if !got {
 				w.K.Violate(&Violation{Property: "C14", Class: "probe-lost", Key: kv("dir", "c2p", "horizon", horizon(wr.T-rc.allocAt)),
 					Detail: fmt.Sprintf("payload written to %s at %d ns (%.0f s after Allocate) never reached the peer (WriteTo done=%v err=%v)", wr.Peer, wr.T, float64(wr.T-rc.allocAt)/1e9, wr.Done, wr.Err)})
@@ -455,6 +460,11 @@ func (w *SrvWorld) checkE2E() {
 					Detail: fmt.Sprintf("datagram %s sent by %s at %d ns was never read: the allocation made after Close was deleted by the retransmitted Refresh(0) of that Close", key, pl.From, pl.T)})
 				break
 			}
+			if !got && pl.Expect && permitted && w.deafListenerBefore(rc, pl.T) {
+				w.K.Violate(&Violation{Property: "C14", Class: "probe-lost", Key: kv("cause", "listener-deaf-while-dialling-silent-peer", "dir", "p2c"),
+					Detail: fmt.Sprintf("datagram %s sent by %s to the relayed address at %d ns (%.0f s after Allocate) was never read: before that the server dialled a host that never answers, inside the read loop this client's requests go through", key, pl.From, pl.T, float64(pl.T-rc.allocAt)/1e9)})
+				break
+			}
 			if !got && pl.Expect && permitted {
 				w.K.Violate(&Violation{Property: "C14", Class: "probe-lost", Key: kv("dir", "p2c", "horizon", horizon(pl.T-rc.allocAt)),
 					Detail: fmt.Sprintf("datagram %s sent by %s to the relayed address at %d ns (%.0f s after Allocate) was never read by the client", key, pl.From, pl.T, float64(pl.T-rc.allocAt)/1e9)})
@@ -462,6 +472,22 @@ func (w *SrvWorld) checkE2E() {
 			}
 		}
 	}
+}
+
+// deafListenerBefore: on a datagram listener (one read loop for everybody) the server dialled
+// the black hole after this client allocated and before t - see known finding KF-C14-3.
+func (w *SrvWorld) deafListenerBefore(rc *RealClient, t int64) bool {
+	if w.P.Cfg.Listener != "udp" {
+		return false
+	}
+	w.Net.mu.Lock()
+	defer w.Net.mu.Unlock()
+	for _, at := range w.Net.SilentDials {
+		if at > rc.allocAt && at < t {
+			return true
+		}
+	}
+	return false
 }
 
 // partitioned: some partition window of the plan overlaps [t0, t1].
